@@ -18,7 +18,7 @@ tvars == <<l, off, vis, vk, phase, seen, toks, ctx, done>>
 
 Toks(r) == [i \in 1..Len(r.t) |-> [k |-> r.t[i].k, p |-> r.t[i].p]]
 KindOf(s) == CASE s = "var" -> "V" [] s = "set" -> "S" [] s = "loop" -> "LP" [] s = "goto" -> "G"
-               [] s = "label" -> "L" [] s = "if" -> "I" [] s = "block" -> "O" [] OTHER -> "?"
+               [] s = "label" -> "L" [] s = "call" -> "M" [] s = "if" -> "I" [] s = "block" -> "O" [] OTHER -> "?"
 
 TInit == /\ l = 1 /\ off = 0 /\ vis = <<>> /\ vk = 0 /\ phase = "idle" /\ seen = {}
          /\ toks = <<>> /\ ctx = <<"F">> /\ done = FALSE
